@@ -1,9 +1,229 @@
 import WzVerif.Driver.Proto
+import WzVerif.Model.Http
+import WzVerif.Model.Date
 namespace Wz.Driver.C06
-open Wz Wz.Proto
+open Wz Wz.Proto Wz.Http
 
-/-- stub: no model commands yet -/
+/-! wire formats: text = hex of UTF-8 (`-` empty, `~` None); lists joined by `,` (`[]` empty);
+dict pairs `k:v`; exceptions `EXC:<Class>` -/
+
+def exc (f : α → String) : Except String α → String
+  | .ok a => f a
+  | .error e => "EXC:" ++ e
+
+def strList (l : List Str) : String := outList hexStr l
+def optStr : Option Str → String := outOpt hexStr
+def pairsOpt (d : Dict (Option Str)) : String := outList (fun (k, v) => hexStr k ++ ":" ++ optStr v) d
+def pairsStr (d : Dict Str) : String := outList (fun (k, v) => hexStr k ++ ":" ++ hexStr v) d
+
+def listArg (s : String) : Option (List Str) :=
+  if s == "[]" then some [] else (s.splitOn ",").mapM unhexStr
+
+def pairsOptArg (s : String) : Option (Dict (Option Str)) :=
+  if s == "[]" then some [] else
+  (s.splitOn ",").mapM fun p =>
+    match p.splitOn ":" with
+    | [k, v] => do
+      let k ← unhexStr k
+      let v ← optArg unhexStr v
+      pure (k, v)
+    | _ => none
+
+def pairsStrArg (s : String) : Option (Dict Str) :=
+  (pairsOptArg s).bind fun d => d.mapM fun (k, v) => v.map (k, ·)
+
+def optListStr (l : List (Option Str)) : String := outList optStr l
+def optListArg (s : String) : Option (List (Option Str)) :=
+  if s == "[]" then some [] else (s.splitOn ",").mapM (optArg unhexStr)
+
+def etagsOut (e : ETags) : String :=
+  "S=" ++ optListStr e.strong ++ ";W=" ++ optListStr e.weak ++ ";*=" ++ outBool e.star
+
+def optInt : Option Int → String := outOpt toString
+
+def rangeOut : Option RangeV → String
+  | none => "~"
+  | some r => hexStr r.units ++ "|" ++ outList (fun (b, e) => toString b ++ ":" ++ optInt e) r.ranges
+
+def rangesArg (s : String) : Option (List (Int × Option Int)) :=
+  if s == "[]" then some [] else
+  (s.splitOn ",").mapM fun p =>
+    match p.splitOn ":" with
+    | [b, e] => do
+      let b ← intArg b
+      let e ← optArg intArg e
+      pure (b, e)
+    | _ => none
+
+def crangeOut : Option ContentRangeV → String
+  | none => "~"
+  | some c => optStr c.units ++ "|" ++ optInt c.start ++ "|" ++ optInt c.stop ++ "|" ++ optInt c.length
+
+def ccValOut : CCVal → String
+  | .none => "none" | .true_ => "true" | .false_ => "false"
+  | .int i => "i:" ++ toString i | .str s => "s:" ++ hexStr s
+
+def ccValArg (s : String) : Option CCVal :=
+  if s == "none" then some .none else if s == "true" then some .true_ else if s == "false" then some .false_
+  else if s.startsWith "i:" then (intArg (s.drop 2).toString).map .int
+  else if s.startsWith "s:" then (unhexStr (s.drop 2).toString).map .str
+  else none
+
+def ccTypeArg (s : String) : Option CCType :=
+  if s == "bool" then some .bool else if s == "int" then some .int else if s == "none" then some .str else none
+
+def authOut : Option Auth → String
+  | none => "~"
+  | some a => hexStr a.type ++ "|" ++ pairsOpt a.params ++ "|" ++ optStr a.token
+
+def authArg (ty ps tok : String) : Option Auth := do
+  let ty ← unhexStr ty
+  let ps ← pairsOptArg ps
+  let tok ← optArg unhexStr tok
+  pure ⟨ty, ps, tok⟩
+
+def acceptOut (l : List (Str × Str)) : String := outList (fun (i, q) => hexStr i ++ ":" ++ hexStr q) l
+
+def optionsOut (r : Str × Dict Str) : String := hexStr r.1 ++ "|" ++ pairsStr r.2
+
+/-- `wire ++ "|" ++ parsed` for the dump→parse pairs -/
+def pair (wire : Str) (parsed : String) : String := hexStr wire ++ "|" ++ parsed
+
+def withStr (a : String) (f : Str → String) : Option String :=
+  match unhexStr a with | some s => some (f s) | none => some badArgs
+
 def handle : Handler
+  -- single functions (hostile text)
+  | "quote", [v, allow] =>
+    match unhexStr v, boolArg allow with
+    | some v, some allow => some (hexStr (quoteHeaderValue v allow))
+    | _, _ => some badArgs
+  | "unquote", [v] => withStr v fun v => hexStr (unquoteHeaderValue v)
+  | "list.parse", [h] => withStr h fun h => strList (parseListHeader h)
+  | "dict.parse", [h] => withStr h fun h => exc pairsOpt (parseDictHeader h)
+  | "opt.parse", [h] => withStr h fun h => exc optionsOut (parseOptionsHeader h)
+  | "set.parse", [h] => withStr h fun h => strList (parseSetHeader h)
+  | "etags.parse", [h] => withStr h fun h => etagsOut (parseEtags h)
+  | "etag.unquote", [h] => withStr h fun h =>
+    match unquoteEtag h with | none => "~" | some (e, w) => hexStr e ++ "|" ++ outBool w
+  | "range.parse", [h] => withStr h fun h => exc rangeOut (parseRangeHeader h)
+  | "crange.parse", [h] => withStr h fun h => exc crangeOut (parseContentRangeHeader h)
+  | "age.parse", [h] => withStr h fun h => exc (outOpt toString) (parseAge h)
+  | "cc.parse", [h] => withStr h fun h => exc pairsOpt (parseCacheControl h)
+  | "csp.parse", [h] => withStr h fun h => pairsStr (parseCsp h)
+  | "auth.parse", [h] => withStr h fun h => exc authOut (authorizationFromHeader h)
+  | "www.parse", [h] => withStr h fun h => exc authOut (wwwFromHeader h)
+  | "accept.parse", [h] => withStr h fun h => exc acceptOut (parseAcceptHeader h)
+  | "b64.dec", [h] => withStr h fun h => exc hex (b64Decode h)
+  | "pyint", [h] => withStr h fun h => exc toString (pyInt h)
+  | "plainint", [h] => withStr h fun h => exc toString (plainInt h)
+  | "lower", [h] => withStr h fun h => hexStr (pyLower h)
+  | "title", [h] => withStr h fun h => hexStr (pyTitle h)
+  | "strip", [h] => withStr h fun h => hexStr (strip h)
+  -- dump -> parse pairs
+  | "pair.quote", [v, allow] =>
+    match unhexStr v, boolArg allow with
+    | some v, some allow =>
+      let w := quoteHeaderValue v allow
+      some (pair w (hexStr (unquoteHeaderValue w)))
+    | _, _ => some badArgs
+  | "pair.list", [l] =>
+    match listArg l with
+    | some l => let w := dumpHeaderList l; some (pair w (strList (parseListHeader w)))
+    | none => some badArgs
+  | "pair.set", [l] =>
+    match listArg l with
+    | some l => let w := headerSetToHeader l; some (pair w (strList (parseSetHeader w)))
+    | none => some badArgs
+  | "pair.dict", [d] =>
+    match pairsOptArg d with
+    | some d => some (exc id (do let w ← dumpHeaderDict d; pure (pair w (exc pairsOpt (parseDictHeader w)))))
+    | none => some badArgs
+  | "pair.options", [h, d] =>
+    match optArg unhexStr h, pairsOptArg d with
+    | some h, some d =>
+      some (exc id (do let w ← dumpOptionsHeader h d; pure (pair w (exc optionsOut (parseOptionsHeader w)))))
+    | _, _ => some badArgs
+  | "pair.etag", [e, w] =>
+    match unhexStr e, boolArg w with
+    | some e, some w =>
+      some (exc id (do
+        let q ← quoteEtag e w
+        pure (pair q (match unquoteEtag q with | none => "~" | some (e, w) => hexStr e ++ "|" ++ outBool w))))
+    | _, _ => some badArgs
+  | "pair.etags", [s, w, star] =>
+    match optListArg s, optListArg w, boolArg star with
+    | some s, some w, some star =>
+      let h := etagsToHeader ⟨s, w, star⟩
+      some (pair h (etagsOut (parseEtags h)))
+    | _, _, _ => some badArgs
+  | "pair.range", [u, rs] =>
+    match unhexStr u, rangesArg rs with
+    | some u, some rs =>
+      some (exc id (do
+        let r ← rangeCtor u rs
+        let w := rangeToHeader r
+        pure (pair w (exc rangeOut (parseRangeHeader w)))))
+    | _, _ => some badArgs
+  | "pair.crange", [u, s, e, l] =>
+    match optArg unhexStr u, optArg intArg s, optArg intArg e, optArg intArg l with
+    | some u, some s, some e, some l =>
+      if !isByteRangeValid s e l then some "EXC:AssertionError" else
+      let w := contentRangeToHeader ⟨u, s, e, l⟩
+      some (pair w (exc crangeOut (parseContentRangeHeader w)))
+    | _, _, _, _ => some badArgs
+  | "pair.age", [n] =>
+    match natArg n with
+    | some n => let w := dumpAge n; some (pair w (exc (outOpt toString) (parseAge w)))
+    | none => some badArgs
+  | "pair.cc", [d, key, empty, ty, val] =>
+    -- set a typed property on a dict, dump, parse, get it back; answer: wire | dict | value
+    match pairsOptArg d, unhexStr key, ccValArg empty, ccTypeArg ty, ccValArg val with
+    | some d, some key, some empty, some ty, some val =>
+      let d' := setCacheValue d key val ty
+      some (exc id (do
+        let w ← dumpHeaderDict d'
+        let p ← parseCacheControl w
+        let g ← getCacheValue p key empty ty
+        pure (pair w (pairsOpt p ++ "|" ++ ccValOut g))))
+    | _, _, _, _, _ => some badArgs
+  | "cc.get", [d, key, empty, ty] =>
+    match pairsOptArg d, unhexStr key, ccValArg empty, ccTypeArg ty with
+    | some d, some key, some empty, some ty => some (exc ccValOut (getCacheValue d key empty ty))
+    | _, _, _, _ => some badArgs
+  | "pair.csp", [d] =>
+    match pairsStrArg d with
+    | some d => let w := dumpCsp d; some (pair w (pairsStr (parseCsp w)))
+    | none => some badArgs
+  | "pair.auth", [ty, ps, tok] =>
+    match authArg ty ps tok with
+    | some a =>
+      some (exc id (do let w ← authorizationToHeader a; pure (pair w (exc authOut (authorizationFromHeader w)))))
+    | none => some badArgs
+  | "pair.www", [ty, ps, tok] =>
+    match authArg ty ps tok with
+    | some a => some (exc id (do let w ← wwwToHeader a; pure (pair w (exc authOut (wwwFromHeader w)))))
+    | none => some badArgs
+  | "b64.enc", [b] =>
+    match unhex b with
+    | some b => some (hexStr (b64Encode b))
+    | none => some badArgs
+  | "date.fmt", [t] =>
+    match natArg t with
+    | some t => some (hexStr (Wz.Date.httpDate t))
+    | none => some badArgs
+  | "date.parse", [h] => withStr h fun h => outOpt toString (Wz.Date.parseDate h)
+  | "pair.date", [t] =>
+    match natArg t with
+    | some t => let w := Wz.Date.httpDate t; some (pair w (outOpt toString (Wz.Date.parseDate w)))
+    | none => some badArgs
+  | "pair.dateaware", [y, mo, d, hh, mi, ss, off] =>
+    match natArg y, natArg mo, natArg d, natArg hh, natArg mi, natArg ss, intArg off with
+    | some y, some mo, some d, some hh, some mi, some ss, some off =>
+      match Wz.Date.httpDateAware ⟨y, mo, d, hh, mi, ss⟩ off with
+      | some w => some (pair w (outOpt toString (Wz.Date.parseDate w)))
+      | none => some "EXC:OverflowError"
+    | _, _, _, _, _, _, _ => some badArgs
   | _, _ => none
 
 end Wz.Driver.C06
